@@ -176,7 +176,12 @@ func (s *Server) serve(ctx context.Context) {
 			}
 		} else {
 			tempDelay = 0
-			go s.startSession(sessionID, conn, log.Logger)
+			// Count the session before it starts, so Drain cannot miss it.
+			s.wg.Add(1)
+			go func(id int, conn net.Conn) {
+				defer s.wg.Done()
+				s.startSession(id, conn, log.Logger)
+			}(sessionID, conn)
 		}
 	}
 }
